@@ -362,7 +362,7 @@ def late_writes(ctx, report=None):
     mode — in place or through load_state_dict — which is the usual order when a checkpoint is loaded for inference"""
     for copy in ('transforms', 'nde', 'mog'):
         for (F, H, blocks, residual) in ((2, 3, 0, False), (3, 5, 1, False), (4, 8, 2, True), (3, 4, 1, True)):
-            for late in ('inplace', 'load'):
+            for late in ('inplace', 'load', 'used-inplace', 'used-load'):
                 for train in (False, True):
                     cfg = dict(copy=copy, F=F, H=H, blocks=blocks, m=3 if copy == 'mog' else 2, residual=residual, random=False, C=0, bn=False, seed=F * 7 + H)
                     extra = dict(act='tanh', train=train, dropout=0.0, wseed=F + H + blocks, late=late)
@@ -383,7 +383,8 @@ ORACLE_ACTS = {'relu': TF.relu, 'tanh': torch.tanh, 'sigmoid': torch.sigmoid}
 def oracle_case(cfg, act='relu', train=False, dropout=0.0, wseed=0, B=3, transform=False, late=None):
     """-> None if block i of the outputs is independent of inputs j >= i, else dict(i, j, how, value).
     late = 'inplace' | 'load': the weights are written AFTER the model was put in its mode (in place / through load_state_dict),
-    as when a checkpoint is loaded into a model that is already in evaluation mode"""
+    as when a checkpoint is loaded into a model that is already in evaluation mode; 'used-inplace' | 'used-load': the model was
+    moreover evaluated once before the weights were written"""
     try:
         net = construct(cfg, activation=ORACLE_ACTS[act], dropout=dropout)
     except Exception:
@@ -394,8 +395,13 @@ def oracle_case(cfg, act='relu', train=False, dropout=0.0, wseed=0, B=3, transfo
     g = torch.Generator().manual_seed(wseed)
     if late:
         net.train(train)
+        if late.startswith('used-'):
+            # the model has already been evaluated (with its initial weights) when the new weights arrive
+            with torch.no_grad():
+                x0 = torch.randn(2, F, generator=g)
+                net(x0, torch.randn(2, C, generator=g)) if C else net(x0)
     with torch.no_grad():
-        if late == 'load':
+        if late in ('load', 'used-load'):
             sd = {k: (torch.randn(v.shape, generator=g) * 0.7 + 0.1 if (v.is_floating_point() and k in dict(net.named_parameters())) else v.clone())
                   for k, v in net.state_dict().items()}
             net.load_state_dict(sd)
